@@ -35,7 +35,8 @@ RULE = ("source {raw, compressed_segmentation, jpeg} x {deep gzip, flat "
         "sharded sources sharing their scale keys); re-conversions into a "
         "destination already holding another dataset (flat/deep x gzip "
         "before x gzip after x source order); chunks of 256 KiB - 1 MiB "
-        "converted to sharded raw / sharded gzip / unsharded. Non-trivial: "
+        "converted to sharded raw / sharded gzip / unsharded; compressed_segmentation datasets with a different block size per scale, "
+        "encoded / decoded by the specification-only codec at one end. Non-trivial: "
         "encoding, layout or data type differs between source and "
         "destination.")
 ASSUMPTIONS = [
@@ -489,6 +490,107 @@ def _eval_big_chunks(col):
         sandbox.rm(d)
 
 
+def _eval_foreign_cseg(col):
+    """compressed_segmentation datasets whose two scales use DIFFERENT block
+    sizes, with an independent codec at one end: (1) source chunks encoded
+    by the harness's specification-only encoder, converted to raw and to
+    compressed_segmentation with other per-scale block sizes; (2) every
+    compressed_segmentation destination decoded by the specification-only
+    decoder with the block size its own info declares"""
+    from mc.oracle import cseg_spec
+    from neuroglancer_scripts import accessor
+    from neuroglancer_scripts.scripts import convert_chunks as cc
+    d = sandbox.fresh_dir("c13f")
+    try:
+        sizes = ([9, 6, 5], [5, 3, 3])
+        chunk = [4, 4, 4]
+
+        def mk_info(enc_blocks, dtype="uint32"):
+            scales = []
+            for k, size in enumerate(sizes):
+                sc = {"key": "s%d" % k, "size": size,
+                      "chunk_sizes": [chunk], "resolution": [2 ** k] * 3,
+                      "voxel_offset": [0, 0, 0]}
+                if enc_blocks is None:
+                    sc["encoding"] = "raw"
+                else:
+                    sc["encoding"] = "compressed_segmentation"
+                    sc["compressed_segmentation_block_size"] = \
+                        enc_blocks[k]
+                scales.append(sc)
+            return {"type": "segmentation", "data_type": dtype,
+                    "num_channels": 1, "scales": scales}
+
+        def volume(k):
+            size = sizes[k]
+            z, y, x = np.meshgrid(np.arange(size[2]), np.arange(size[1]),
+                                  np.arange(size[0]), indexing="ij")
+            return ((x // 2 + 3 * (y // 2) + 7 * z + k) % 5 * 1000003
+                    ).astype("uint32")[np.newaxis]
+
+        src_blocks = ([8, 8, 8], [2, 4, 4])
+        src = os.path.join(d, "src")
+        os.makedirs(src)
+        with open(os.path.join(src, "info"), "w") as f:
+            json.dump(mk_info(src_blocks), f)
+        acc = accessor.get_accessor_for_url(src, {"flat": True,
+                                                  "gzip": False})
+        vols = [volume(0), volume(1)]
+        for k, size in enumerate(sizes):
+            for c in pipeline.chunk_grid(size, chunk):
+                sub = vols[k][:, c[4]:c[5], c[2]:c[3], c[0]:c[1]]
+                buf = cseg_spec.encode_variant(
+                    [sub[0].ravel().tolist()], sub.shape[1:],
+                    tuple(src_blocks[k]), 4, "plain")
+                acc.store_chunk(bytes(buf), "s%d" % k, c)
+        n = 0
+        for dst_blocks in (None, ([2, 2, 2], [8, 8, 8]),
+                           ([4, 4, 4], [4, 4, 2])):
+            n += 1
+            dst = os.path.join(d, "dst%d" % n)
+            os.makedirs(dst)
+            with open(os.path.join(dst, "info"), "w") as f:
+                json.dump(mk_info(dst_blocks), f)
+            case = {"kind": "foreign-cseg", "source_blocks": src_blocks,
+                    "destination_blocks": dst_blocks}
+            try:
+                with sandbox.quiet():
+                    cc.convert_chunks(src, dst, options={"flat": True,
+                                                         "gzip": False})
+                dacc = accessor.get_accessor_for_url(dst)
+                for k, size in enumerate(sizes):
+                    for c in pipeline.chunk_grid(size, chunk):
+                        raw = bytes(dacc.fetch_chunk("s%d" % k, c))
+                        want = vols[k][:, c[4]:c[5], c[2]:c[3], c[0]:c[1]]
+                        if dst_blocks is None:
+                            got = np.frombuffer(raw, "<u4").reshape(
+                                want.shape)
+                        else:
+                            got = np.array(cseg_spec.decode(
+                                raw, 1, want.shape[1:],
+                                tuple(dst_blocks[k]), 4),
+                                dtype="uint32").reshape(want.shape)
+                        if not np.array_equal(got, want):
+                            raise AssertionError(
+                                "scale %d chunk %r: %d voxels differ" % (
+                                    k, c, int(np.count_nonzero(
+                                        got != want))))
+                col.ev(1, 1, "ok")
+            except Exception as exc:
+                col.ev(1, 1, "bad")
+                col.violation("C13/foreign-cseg/destination-differs/"
+                              + type(exc).__name__, case,
+                              "every voxel of the source, decoded with the "
+                              "block size each info declares",
+                              repr(exc)[:200])
+        col.sample({"kind": "foreign-cseg",
+                    "source_blocks": [[8, 8, 8], [2, 4, 4]],
+                    "destination_blocks": None})
+    finally:
+        sandbox.drop_captured_exit_handlers()
+        sandbox.rm(d)
+
+
 def _eval_reruns(col):
     """a destination that already holds a conversion of another dataset of
     the same geometry (same layout, either gzip setting) is converted into
@@ -555,6 +657,7 @@ def units(tier):
     u.append({"kind": "api-sequences"})
     u.append({"kind": "reruns"})
     u.append({"kind": "big-chunks"})
+    u.append({"kind": "foreign-cseg"})
     return u
 
 
@@ -574,6 +677,9 @@ def run_unit(u):
     if u.get("kind") == "big-chunks":
         _eval_big_chunks(col)
         return col.result()
+    if u.get("kind") == "foreign-cseg":
+        _eval_foreign_cseg(col)
+        return col.result()
     for case in u["cases"]:
         _eval(col, case)
     col.sample(u["cases"][0])
@@ -588,6 +694,11 @@ def replay(case):
                 if r["case"].get("sequence") == case["sequence"]
                 and r["case"].get("shared_options")
                 == case["shared_options"]]
+    if case.get("kind") == "foreign-cseg":
+        _eval_foreign_cseg(col)
+        return [r for r in col.records()
+                if r["case"].get("destination_blocks")
+                == case["destination_blocks"]]
     if case.get("kind") == "big-chunks":
         _eval_big_chunks(col)
         return [r for r in col.records()
